@@ -206,6 +206,8 @@ type reporter struct {
 	findings []common.Finding
 	known    []string
 	seenSig  map[string]bool
+
+	unreproduced int
 }
 
 func newReporter(prop string, seed int64) *reporter {
@@ -225,7 +227,10 @@ func (r *reporter) report(h *History, v *Violation, rerun func(*History) *Violat
 	for i := 0; i < 2; i++ {
 		v2 := rerun(h)
 		if v2 == nil || v2.Signature != v.Signature {
-			fail2("replay of %s did not reproduce (%s)", r.prop, v.Signature)
+			// never reported as a violation; makes the run inconclusive unless a confirmed violation exists too
+			fmt.Fprintf(os.Stderr, "HARNESS-WARNING: replay of %s did not reproduce (%s)\n", r.prop, v.Signature)
+			r.unreproduced++
+			return false
 		}
 	}
 	h.Expect = &Expect{Class: v.Class, Signature: v.Signature, Detail: v.Detail}
